@@ -220,6 +220,15 @@ func runWorker(master uint64, worker, workers, scheds, maxProgs int, budget floa
 	var siteBits [64]uint64
 	defer func() { res.SiteBits = siteBits[:] }()
 	progs := 0
+	if catalogueHang != "" {
+		w := &Workload{Codec: "new", Tasks: [][]OpSpec{{{Kind: "encode", Type: catalogueHang, ValSeed: 1}}}}
+		v := &Violation{Class: "deadlock", Task: -1, Op: -1, Detail: "the very first encode of an empty " + catalogueHang + " on a fresh codec never returns (15 s)"}
+		res.Violations = append(res.Violations, &Replay{Property: "C10", MasterSeed: master, RunIndex: -1, SchedIndex: -1, Workload: w,
+			Run: RunCfg{Policy: simrt.Policy{Mode: "serial"}}, Violation: v, FindingKey: v.Key(), Minimised: true, Note: "found while building the type catalogue"})
+		st.Executions++
+		res.WallS = time.Since(start).Seconds()
+		return res
+	}
 	for idx := worker; progs < maxProgs; idx += workers {
 		if time.Since(start).Seconds() > budget {
 			break
@@ -334,10 +343,17 @@ func runWorker(master uint64, worker, workers, scheds, maxProgs int, budget floa
 					}
 				}
 			}
-			nt := len(w.Tasks) >= 2 && r.Stats.SwitchInBuild > 0
+			nt := len(w.Tasks) >= 2 && (r.Stats.SwitchInBuild > 0 || nativeFallback())
+			if nativeFallback() {
+				st.Probes["native_mode_runs"]++
+			}
 			if nt {
 				st.NonTrivial++
-				sigs[r.Sig^simrt.HashString(w.Digest())] = true
+				if nativeFallback() {
+					sigs[simrt.Derive(simrt.HashString(w.Digest()), uint64(s))] = true // distinct (workload, repetition) pairs: schedules are not observable
+				} else {
+					sigs[r.Sig^simrt.HashString(w.Digest())] = true
+				}
 			}
 			if detlog {
 				od := "-"
@@ -350,7 +366,11 @@ func runWorker(master uint64, worker, workers, scheds, maxProgs int, budget floa
 						nonRace++
 					}
 				}
-				res.DetLog = append(res.DetLog, fmt.Sprintf("%d/%d sig=%016x y=%d sw=%d out=%s v=%d", idx, s, r.Sig, r.Stats.Yields, r.Stats.Switches, od, nonRace))
+				if nativeFallback() {
+					res.DetLog = append(res.DetLog, fmt.Sprintf("%d/%d native out=%s v=%d", idx, s, od, nonRace))
+				} else {
+					res.DetLog = append(res.DetLog, fmt.Sprintf("%d/%d sig=%016x y=%d sw=%d out=%s v=%d", idx, s, r.Sig, r.Stats.Yields, r.Stats.Switches, od, nonRace))
+				}
 			}
 			if len(res.Samples) < 2 && nt {
 				sm := Sample{Codec: w.Codec, Warm: opsStrings(w.Warm), Policy: policyName(pol), Switches: r.Stats.Switches, Yields: r.Stats.Yields}
@@ -361,7 +381,7 @@ func runWorker(master uint64, worker, workers, scheds, maxProgs int, budget floa
 			}
 			if detlog || len(vs) > 0 {
 				// exact-replay self-check: the recorded switch list must reproduce the run
-				if !r.Deadlock && !r.Capped {
+				if !r.Deadlock && !r.Capped && !nativeFallback() {
 					fc := cfg
 					fc.Policy = simrt.Policy{Mode: "forced", Forced: r.Switches}
 					r2 := runSim(w, prep, warm, fc, false)
@@ -522,7 +542,7 @@ func replayOnce(rp *Replay, attempts int, keepEvents bool) (*Violation, *RunResu
 		if r.Deadlock || r.Capped {
 			break
 		}
-		if rp.Violation.Class != "data_race" {
+		if rp.Violation.Class != "data_race" && !nativeFallback() {
 			break // everything but race reports is a pure function of the file
 		}
 	}
